@@ -161,7 +161,10 @@ func (part Partition) Contains(d time.Time) bool {
 func NewPartition(period Period, interval Interval, last int) Partition {
 	var periods []Period
 	if interval == Once {
-		periods = append(periods, period)
+		// an empty window has no periods (as with every other interval)
+		if !period.End.Before(period.Start) {
+			periods = append(periods, period)
+		}
 	} else {
 		var start time.Time
 		var counter int
